@@ -18,6 +18,12 @@ theorem Res.ofOpt_ok {α : Type} {o : Option α} {a : α} (h : Res.ofOpt o = .ok
 theorem Res.pure_ok {α : Type} {a b : α} (h : (pure a : Res α) = .ok b) : a = b := by
   injection h
 
+theorem opt_bind_some {α β : Type} {x : Option α} {f : α → Option β} {b : β} (h : (x >>= f) = some b) :
+    ∃ a, x = some a ∧ f a = some b := by
+  cases x with
+  | none => cases h
+  | some a => exact ⟨a, rfl, h⟩
+
 namespace Bank
 
 theorem math_ok {α : Type} {o : Option α} {a : α} (h : math o = .ok a) : o = some a := Res.ofOpt_ok h
